@@ -4,7 +4,7 @@
     compute_contact_force; order_points' permutation and the barycentric transforms X are inputs). *)
 From Coq Require Import ZArith QArith Reals Lra List Bool PrimFloat.
 From D3 Require Import Base.Ops Base.Vec Base.RVec Spec.Convex Checker.Poly Model.AabbTree Model.Hydro
-     Proofs.HydroPlane Proofs.HydroHalfplanes Proofs.HydroPair Proofs.HydroForce Proofs.HydroParallel Proofs.HydroOrder.
+     Proofs.HydroPlane Proofs.HydroHalfplanes Proofs.HydroPair Proofs.HydroForce Proofs.HydroParallel Proofs.HydroOrder Proofs.HydroInside.
 Import ListNotations.
 Local Close Scope Q_scope.
 
@@ -218,6 +218,27 @@ Theorem C15_non_overlapping_false_partial :
   forall r, intersect_tetrahedron_pair t1 e1 X1 t2 e2 X2 E1 E2 perm = Ok r -> fst (fst r) = false.
 Proof. exact non_overlapping_false_partial. Qed.
 
+(** The halfplane layer and the pre-check combined: a reported polygon lies on the plane and in
+    both tetrahedra, up to EPSILON for faces with a halfplane row and strictly for faces exactly
+    parallel to the plane.  Partial: faces whose projected normal has norm in (0, EPSILON] are not
+    covered; X1, X2 are assumed to be the barycentric transforms (the code obtains them by pinv).
+    (Satisfiability of the hypotheses: C15_parallel_face_nonvacuous, C15_contact_plane_nonvacuous and
+    the binary64 run C15_model_nonvacuous; the complete pipeline is exercised on every run of the
+    check by the PrimFloat correspondence.) *)
+Theorem C15_reported_polygon_inside_partial :
+  forall (t1 t2 : @tetra R) (e1 e2 : V4 R) (X1 X2 : @M4 R) (E1 E2 : R) (perm : list nat) (pl : V4 R) (poly : list (V3 R)),
+  is_bary X1 t1 -> is_bary X2 t2 ->
+  snd (contact_plane X1 X2 e1 e2 E1 E2) = false ->
+  intersect_tetrahedron_pair t1 e1 X1 t2 e2 X2 E1 E2 perm = Ok (true, pl, poly) ->
+  forall v, In v poly ->
+    dot (xyz pl) v = c3 pl /\
+    let '(x, y) := plane_basis_from_normal (xyz pl) in
+    let pp := vmap (fun c => (c * c3 pl)%o) (xyz pl) in
+    forall Xi, In Xi (m4rows X1 ++ m4rows X2) ->
+      ((exists h, hp_row x y pp Xi = Some h) -> (- EPSILON <= bary_row Xi v)%R) /\
+      (dot (xyz Xi) x = 0%R -> dot (xyz Xi) y = 0%R -> (0 < bary_row Xi v)%R).
+Proof. exact reported_polygon_inside_partial. Qed.
+
 (** ** order independence (exact model).  The 3-D vertices of the arrangement are characterised
     without the 2-D basis: v is one iff it lies on the plane, on two valid faces whose lines are not
     nearly parallel, and violates no valid face by more than EPSILON ... *)
@@ -289,6 +310,7 @@ Print Assumptions C15_polygon_vertices_on_plane_in_faces_partial.
 Print Assumptions C15_intersection_true_vertices.
 Print Assumptions C15_one_sided_rejects.
 Print Assumptions C15_non_overlapping_false_partial.
+Print Assumptions C15_reported_polygon_inside_partial.
 Print Assumptions C15_arrangement_vertex_iff.
 Print Assumptions C15_arrangement_vertices_order_independent.
 Print Assumptions C15_contact_plane_swap.
